@@ -240,56 +240,178 @@ def _pair(ctx, m, kind, rs, js):
                f"d/dy_col of {rs.text!r}: col over the factor list with multiplicity, term {js.text!r} with the column's factor removed from a fresh copy")
 
 
-def _r4_templates(ctx, rule_decode="R4", rule_omit="R6"):
+NROW = ("attr", ("attr", ("name", "ode"), "jac"), "nrow")
+JRHS = ("attr", ("attr", ("name", "ode"), "jac"), "rhs")
+_CSR_FIELDS = ("ode.jac.vals", "ode.jac.cols", "ode.jac.rows")
+
+
+def _own_items(items, stack=()):
+    """items of one loop body with their enclosing if-frames; nested loops are yielded but not entered"""
+    for x in items:
+        yield x, stack
+        if x[0] == "if":
+            yield from _own_items(x[2], stack + (("if+", x[1]),))
+            yield from _own_items(x[3], stack + (("if-", x[1]),))
+
+
+def _paths_in(e):
+    out = set()
+
+    def rec(x):
+        if isinstance(x, tuple):
+            p = J.path(x) if x and x[0] in ("name", "attr") else None
+            if p is not None:
+                out.add(p)
+            for y in x:
+                rec(y)
+    rec(e)
+    return out
+
+
+def dense_layout(tree, rel, cfg, fname, callee):
+    """How `fname` fills the dense matrix: the loops whose own body writes `callee([jmatrix,] ROW, COL) = VALUE;`, each as a record
+       {loop, line, form, row, col, val, var, guards, ...} with the expressions in canonical form (jmodel.canon: `{% set %}` names and
+       value macros expanded, `//` for `(/)|int`, `loop.index0` for `loop.index - 1`, `%` for `a - (a // n) * n`), where form is
+         "flat"    one loop over ode.jac.rhs itself: the entry at position p = loop.index0 belongs to (p // nrow, p % nrow)
+         "rows"    a loop over `ode.jac.rhs | batch(ode.jac.nrow)` (the rows) around a loop over the row: (outer index0, inner index0);
+                   in the record the outer loop's `loop` is spelled `loop^`
+         "csr"     a loop over the stored CSR entries (ode.jac.vals / cols)
+         "cut"     a loop over a filtered / sliced ode.jac.rhs (positions shift)
+         "other"   anything else"""
+    import re
+    items = J.canon_items(J.propagate_sets(J.flatten(tree, rel, cfg)))
+    sk = Skel(items)
+    infn = {id(it) for it, off in sk.items_in(fname)}
+    pat = re.compile(re.escape(callee) + r"\s*\(\s*(?:jmatrix\s*,\s*)?\x00(\d+)\x00\s*,\s*\x00(\d+)\x00\s*\)\s*=\s*\x00(\d+)\x00\s*;")
+    recs = []
+    for it, st in J.walk_items(items):
+        if it[0] != "for" or id(it) not in infn:
+            continue
+        own = [(x, g) for x, g in _own_items(it[3]) if x[0] in ("text", "out")]
+        txt = "".join(x[1] if x[0] == "text" else f"\x00{i}\x00" for i, (x, g) in enumerate(own))
+        mm = pat.search(txt)
+        if not mm:
+            continue
+        (rowe, _), (cole, _), (vale, vg) = (own[int(g)] for g in mm.groups())
+        rowe, cole, vale = rowe[1], cole[1], vale[1]
+        rec = {"loop": it, "line": it[5], "var": it[1], "row": rowe, "col": cole, "val": vale, "guards": list(vg), "form": "other", "body_text": txt}
+        parents = [f for f in st if f[0] == "for"]
+        base, fs = J.unfilter(it[2])
+        if it[2] == JRHS and it[7] is None:
+            rec["form"] = "flat"
+        elif base == JRHS or (base[0] == "item" and base[1] == JRHS):
+            names = [f[0] for f in fs]
+            rec["form"] = "flat" if it[7] is None and base == JRHS and all(n == "list" for n in names) else \
+                "cut" if it[7] is not None or base != JRHS or any(n in ("select", "reject", "selectattr", "rejectattr", "slice", "batch", "unique", "sort", "reverse") for n in names) else "other"
+        elif it[2][0] == "name" and parents and parents[-1][1] == it[2] and it[7] is None:
+            P = parents[-1]
+            pb, pfs = J.unfilter(P[2])
+            if pb == JRHS and P[7] is None and [f[0] for f in pfs] == ["batch"] and len(pfs[0][1]) == 1 and not pfs[0][2]:
+                rec["form"] = "rows"
+                rec["batch"] = pfs[0][1][0]
+                rec["outer"] = P
+                # names bound in the rows loop (before the inner loop) stand for expressions of THAT loop: its `loop` is written loop^
+                env = {}
+                for x, g in _own_items(P[3]):
+                    if x is it:
+                        break
+                    if x[0] == "set" and x[1][0] == "name" and not g:
+                        env[x[1][1]] = J.subst_names(x[2], {"loop": ("name", "loop^")})
+                    elif x[0] == "set":
+                        for n_ in J.names_of(x[1]):
+                            env.pop(n_, None)
+                for k_ in ("row", "col", "val"):
+                    rec[k_] = J.canon(J.subst_names(rec[k_], env))
+                # if-frames of the rows loop around the inner loop are conditions on whole rows
+                rec["outer_guards"] = [f for f in st[st.index(P) + 1:] if f[0] in ("if+", "if-")]
+        elif _paths_in(it[2]) & set(_CSR_FIELDS):
+            rec["form"] = "csr"
+        recs.append(rec)
+    return recs
+
+
+def _row_cursor(rec):
+    """The row expression of a CSR walk is a namespace attribute `ns.a` that the loop body only ever advances by `{% set ns.a = ns.a + 1 %}`
+    inside `{% if %}` arms (Jinja has no while): -> (ns.a, number of such advances, line) or None."""
+    r = rec["row"]
+    if not (r[0] == "attr" and r[1][0] == "name"):
+        return None
+    sets = []
+    for x, st in J.walk_items(rec["loop"][3]):
+        if x[0] == "set" and x[1] == r:
+            if any(f[0] == "for" for f in st) or not any(f[0] in ("if+", "if-") for f in st):
+                return None
+            v = J.canon(x[2])
+            if v not in (("bin", "+", r, ("const", 1)), ("bin", "+", ("const", 1), r)):
+                return None
+            sets.append(x)
+    return (r, len(sets), sets[0][3]) if sets else None
+
+
+def _r4_templates(ctx, rule_decode="R4", rule_omit="R6", sent=None):
+    """dense / odeint decode of the flattened Jacobian table (C02.R4 + R6; adopted as C03.R3 + R2).  `sent`: dict that receives the
+    sentinel literal each template compares with."""
     n = 0
+    idx0 = ("attr", ("name", "loop"), "index0")
+    out0 = ("attr", ("name", "loop^"), "index0")
     for label, rel, cfg, fname, callee in (("cvode/dense", DENSE, {"general.method": "dense"}, "Jac", "IJth"),
                                            ("odeint", ODEINT, {}, "Jac::operator()", "j")):
         ctx.saw(rel)
-        # `{% set %}` variables are read as the expressions they stand for (row / col / neqns hoisted into variables, in or before the loop)
-        items = J.propagate_sets(J.flatten(ctx.tree, rel, cfg))
-        sk = Skel(items)
-        loops = [(it, off) for it, off in sk.items_in(fname) if it[0] == "for" and J.path(J.unfilter(it[2])[0]) == "ode.jac.rhs"]
+        recs = dense_layout(ctx.tree, rel, cfg, fname, callee)
         key = f"{label}:{fname}:for ode.jac.rhs"
-        if len(loops) != 1:
-            (ctx.bad if loops else ctx.missing)(rule_decode, key, (rel, 0), f"{fname} iterates ode.jac.rhs {len(loops)} times, expected once")
+        if len(recs) != 1:
+            (ctx.bad if recs else ctx.missing)(rule_decode, key, (rel, 0), f"{fname} has {len(recs)} loops writing `{callee}(.., row, col) = value;`, expected one")
             continue
-        it = loops[0][0]
-        if it[2] != ("attr", ("attr", ("name", "ode"), "jac"), "rhs") or it[7] is not None:
-            ctx.bad(rule_decode, key, (rel, it[5]), f"loop over ode.jac.rhs is filtered/sliced: {J.show(it[2])}")
-            continue
-        var = it[1]
-        # the text between outputs tells the argument positions: IJth(jmatrix, <row>, <col>) = <val>;
-        flat = []
-        for x, st in J.walk_items(it[3]):
-            if x[0] in ("text", "out"):
-                flat.append(x)
-        txt = "".join(x[1] if x[0] == "text" else f"\x00{flat.index(x)}\x00" for x in flat)
-        import re
-        pat = re.compile(re.escape(callee) + r"\s*\(\s*(?:jmatrix\s*,\s*)?\x00(\d+)\x00\s*,\s*\x00(\d+)\x00\s*\)\s*=\s*\x00(\d+)\x00\s*;")
-        mm = pat.search(txt)
-        if not mm:
-            ctx.bad(rule_decode, key, (rel, it[5]), f"no `{callee}(.., row, col) = value;` assignment found in the loop body", found=txt.replace("\x00", "#")[:120])
-            continue
-        rowe, cole, vale = (flat[int(g)][1] for g in mm.groups())
-        nrow = ("attr", ("attr", ("name", "ode"), "jac"), "nrow")
-        idx0 = ("attr", ("name", "loop"), "index0")
-        row_ok = rowe == ("filter", "int", ("bin", "/", idx0, nrow), (), ()) or rowe == ("bin", "//", idx0, nrow)
-        col_ok = cole == ("bin", "%", idx0, nrow)
-        ctx.check(row_ok, rule_decode, f"{label}:row-decode", (rel, it[5]), "row = (loop.index0 / ode.jac.nrow) | int",
-                  expected="(loop.index0/ode.jac.nrow)|int", found=J.show(rowe))
-        ctx.check(col_ok, rule_decode, f"{label}:col-decode", (rel, it[5]), "col = loop.index0 % ode.jac.nrow",
-                  expected="loop.index0 % ode.jac.nrow", found=J.show(cole))
-        base, fs = J.unfilter(vale)
-        ctx.check(base == var and all(f[0] == "stmwrap" for f in fs), rule_decode, f"{label}:value", (rel, it[5]),
-                  "the assigned value is the loop's own entry through whitespace-only filters", found=J.show(vale))
-        # R6 (template side): omitted iff == sentinel
-        conds = [st for x, st in J.walk_items(it[3]) if x is flat[int(mm.group(3))]]
-        guards = [g for g in (conds[0] if conds else ()) if g[0] in ("if+", "if-")]
-        want = ("cmp", var, (("ne", ("const", "0.0")),))
-        g_ok = len(guards) == 1 and guards[0][0] == "if+" and guards[0][1] == want
-        ctx.check(g_ok, rule_omit, f"{label}:omit-iff-sentinel", (rel, it[5]), "an entry is skipped iff it equals the sentinel '0.0'",
-                  expected='{% if r != "0.0" %}', found="; ".join(J.show(g[1]) for g in guards))
+        rec = recs[0]
         n += 1
+        it, var, line = rec["loop"], rec["var"], rec["line"]
+        if rec["form"] == "cut":
+            ctx.bad(rule_decode, key, (rel, line), f"loop over ode.jac.rhs is filtered/sliced: {J.show(it[2])}")
+            continue
+        if rec["form"] == "csr":
+            cur = _row_cursor(rec)
+            if cur is not None:
+                ctx.bad(rule_decode, f"{label}:row-cursor", (rel, cur[2]),
+                        f"the dense matrix is filled by walking the stored CSR entries ({J.show(it[2])}) with the row kept in `{J.show(cur[0])}`, which an "
+                        f"`{{% if %}}` advances by at most {cur[1]} per entry: after two or more consecutive empty rows (species in no reaction) the cursor lags "
+                        "behind and entries are assigned to the wrong row",
+                        expected="row = position // ode.jac.nrow over ode.jac.rhs (or a cursor advanced past EVERY exhausted row)", found=f"{J.show(cur[0])} += 1 under if")
+            else:
+                ctx.unrec(rule_decode, key, (rel, line), f"the dense matrix is filled from the CSR arrays ({J.show(it[2])}); the row reconstruction is not understood")
+            continue
+        if rec["form"] == "other":
+            ctx.unrec(rule_decode, key, (rel, line), f"the loop writing `{callee}(..)` iterates {J.show(it[2])}: not ode.jac.rhs in a form that is understood")
+            continue
+        rowe, cole, vale = rec["row"], rec["col"], rec["val"]
+        if rec["form"] == "flat":
+            want_row, want_col = ("bin", "//", idx0, NROW), ("bin", "%", idx0, NROW)
+            texts = ("row = (loop.index0 / ode.jac.nrow) | int", "col = loop.index0 % ode.jac.nrow")
+        else:
+            # rows of ode.jac.nrow consecutive entries: entry c of row r is ode.jac.rhs[r * nrow + c]
+            ctx.check(J.canon(rec["batch"]) == NROW, rule_decode, f"{label}:row-length", (rel, line), "the table is cut into rows of ode.jac.nrow entries",
+                      expected="batch(ode.jac.nrow)", found=J.show(rec["batch"]))
+            want_row, want_col = out0, idx0
+            texts = ("row = position of the row in ode.jac.rhs | batch(nrow)", "col = position of the entry in its row")
+        ctx.check(rowe == want_row, rule_decode, f"{label}:row-decode", (rel, line), texts[0], expected=J.show(want_row), found=J.show(rowe))
+        ctx.check(cole == want_col, rule_decode, f"{label}:col-decode", (rel, line), texts[1], expected=J.show(want_col), found=J.show(cole))
+        base, fs = J.unfilter(vale)
+        ctx.check(base == var and all(f[0] == "stmwrap" for f in fs), rule_decode, f"{label}:value", (rel, line),
+                  "the assigned value is the loop's own entry through whitespace-only filters", found=J.show(vale))
+        # R6 (template side): omitted iff == sentinel, however the test is spelled (`!=`, `==` with the arms swapped, `not`, `is ne`)
+        guards = [J.canon_test(g[1], g[0] == "if+") for g in rec["guards"]] + [J.canon_test(g[1], g[0] == "if+") for g in rec.get("outer_guards", [])]
+        okey = f"{label}:omit-iff-sentinel"
+        lit = None
+        if len(guards) == 1 and guards[0][0][0] == "cmp" and guards[0][0][1] == var and len(guards[0][0][2]) == 1 and guards[0][0][2][0][0] == "eq" \
+                and guards[0][0][2][0][1][0] == "const":
+            lit = guards[0][0][2][0][1][1]
+            if sent is not None:
+                sent[(f"{label.split('/')[-1]} template", rel, line)] = lit
+            ctx.check(lit == "0.0" and guards[0][1] is False, rule_omit, okey, (rel, line), "an entry is skipped iff it equals the sentinel '0.0'",
+                      expected='{% if r != "0.0" %}', found=("" if guards[0][1] is False else "assigned only if ") + J.show(guards[0][0]))
+        elif not guards:
+            ctx.ok(rule_omit, okey, (rel, line), "every entry is assigned (none is omitted)")
+        else:
+            ctx.unrec(rule_omit, okey, (rel, line), "the condition under which an entry is assigned is not understood: " + "; ".join(J.show(g[0]) for g in guards))
     ctx.floor(rule_decode, "dense-layout templates", n, 2)
 
 
